@@ -6,7 +6,8 @@ reward = [a = y] / Jaccard({a}, Y) / -|a - y|) and what examples a source denote
 with or without headers, sparse rows, CSV / ARFF / sparse ARFF / LibSVM / Manik text written by the spec's
 canonical writer).  TLC enumerates every case of the bounded domain (all label assignments of <= MaxRows
 examples over <= 3 labels x label kinds x label types given / inferred x label column position x by index /
-by name x take x feature values: all distinct, or - dense sources - drawn from the label's own alphabet so that a
+by name x take x level order of categorical labels (object sources: every label lists the levels in one order, or each
+example's label in its own order - Supervised.tla OwnLevels / YIn; the expectation is defined over the label VALUES) x feature values: all distinct, or - dense sources - drawn from the label's own alphabet so that a
 feature left / right of the label column EQUALS the example's label, Supervised.tla FVal / FeatureEqualsLabel), checks the design invariants (the label is the unique best offered action, ...) and prints
 input and expected interactions.  The driver builds the real source from the printed input (Python only
 converts values), constructs SupervisedSimulation three ways (positional, keywords,
@@ -91,6 +92,7 @@ def _finish(ctx, total):
         "a given label type is spelled in lower or upper case alternately (parity of n + first label choice), so every configuration of source x label kind x type x shape x by x take is read with both spellings through all three constructions; the thorough tier adds a run with every type in upper case",
         "labels of one dataset have one type (Python cannot sort int against str); label sets are lists without repetition",
         "a categorical label's declared levels are taken as the label set of the data (ARFF nominal declaration), in any fixed order",
+        "categorical labels given as objects (X, Y / rows / rows with headers / sparse rows) list the same SET of levels either all in one order or (lo = 'own') example i in the i-th of four different orders; the rewards are probed with categoricals in the spec's declaration order and with the offered action objects themselves; in an ARFF file one declaration orders all labels",
         "the order of the action set is only required to be the same in every interaction, not to be a particular order",
         "numeric label types on text that the reader leaves as strings (CSV 'r', LibSVM 'r') and nominal labels in sparse ARFF (reader adds a level '0' by design) are outside the domain",
         "take is explored for sources only (the X, Y overload documents no take); the sample positions come from the real Reservoir and are checked by TLC to be a sample (C09 decides which sample)",
@@ -109,7 +111,7 @@ def to_py(v, seq=list):
     if t == "int": return v["v"]
     if t == "half": return v["v"] / 2
     if t == "str": return v["v"]
-    if t == "cat": return Categorical(v["v"], list(LEVELS))
+    if t == "cat": return Categorical(v["v"], list(v.get("lv", LEVELS)))     # lv: the order in which THIS label lists the levels (Supervised.tla OwnLevels)
     if t == "none": return None
     if t == "lst": return [to_py(x) for x in v["v"]]
     if t == "seq": return seq(to_py(x) for x in v["v"])
@@ -184,7 +186,7 @@ def replay(ctx, c):
     def report(sig, what, style):
         return ctx.violation(sig, "%s  [src=%s label=%s label_type=%s label_col=%s take=%s n=%d features=%s, built by %s] input=%s" % (
             what, k["src"], k["lk"], k["lt"], json.dumps(c["inp"]["labelcol"]["v"]) if c["inp"]["labelcol"]["t"] != "none" else None,
-            k["take"], k["n"], k.get("fv", "distinct"), style, json.dumps(c["inp"]["lines"] or c["inp"]["rows"] or [c["inp"]["xs"], c["inp"]["ys"]])[:500]),
+            k["take"], k["n"], k.get("fv", "distinct") + (", every categorical label lists the levels in its own order" if k.get("lo") == "own" else ""), style, json.dumps(c["inp"]["lines"] or c["inp"]["rows"] or [c["inp"]["xs"], c["inp"]["ys"]])[:500]),
             dict(case=c["case"], inp={a: b for a, b in c["inp"].items() if not a.startswith("_")}, expected=c["out"], style=style, plan=c["plan"]))
     for style, build in builders(c["inp"]):
         try:
@@ -300,7 +302,15 @@ def check_interaction(n, g, e, T, k, first):
                 yield "%s:actions:vary" % T, "interaction %d offers %r but interaction 0 offers %r" % (n, acts, first[0])
     # ---- rewards ----
     rw = g["rewards"]
-    for pa, num, den in probes:
+    offered = _safe(lambda: list(g["actions"])) if T in ("c", "m") else []
+    if not isinstance(offered, list): offered = []
+    # every probe is asked as the driver's own value and as the offered action object equal to it (what a learner hands back)
+    asked = list(probes)
+    try:
+        asked += [(a, num, den) for pa, num, den in probes for a in offered if type(a) is type(pa) and a is not pa and a == pa]
+    except Exception:
+        pass
+    for pa, num, den in asked:
         try:
             val = float(rw(pa))
         except Exception as ex:
